@@ -575,7 +575,21 @@ func (c *genCtx) trap(depth int, nn bool) *Expr {
 	if c.draw(0, 11, "nonemptycommit") == 0 {
 		kind = 12
 	}
+	if c.draw(0, 11, "plusoverchoice") == 0 {
+		kind = 13
+	}
 	switch kind {
+	case 13:
+		// a + group over a choice that commits at small lookahead, with a way around the group that takes the same
+		// tokens: ( ( bad | base )+ | base )  or  ( ( bad | base )+ )? base -- a commit made inside the first, mandatory
+		// iteration counts one level up like any other
+		plus := Group("+", Alt(bad, base))
+		plus.Style = c.draw(0, 5, "gstyle")
+		if c.draw(0, 2, "plusopt") == 0 {
+			opt := Group("?", plus)
+			return Seq(opt, clone(base))
+		}
+		return Alt(plus, clone(base))
 	case 12:
 		// a choice inside a (...)! group (or a plain group) that commits at small lookahead, next to an alternative
 		// that would take the same tokens: ( ( bad | base )! | any+ )
